@@ -716,6 +716,44 @@ theorem replay_by_dict_update_breaks_aliasing :
     (h1.hitCallUpdate a (deltaOf body)).walk a ["k"] = some (1, ["k"]) ∧
     (h1.hitCallUpdate a (deltaOf body)).readVia a ["k"] "d" = 2 := by decide
 
+/-- **`pack` gives every kept scope its own counter dict.**  For every list of scopes lifted together (any duplicates, any
+ancestor/descendant pairs, any order): each scope that survives `_dedup_scopes` is paired with *its own* `rng_counters`, so the inner
+scope built for it is the same scope as far as keys go (same streams, same path, same counter dict), and a transform that neither
+splits nor forks the streams (`map_variables`, `vmap` with `split_rngs=False`, `remat`, …) runs any body on it exactly as the un-lifted
+program would — one counter per scope, shared by reference inside and outside the lift. -/
+theorem pack_gives_each_kept_scope_its_own_counters (scopes : List Scope) :
+    (packCounters scopes).map (·.1) = dedupScopes scopes ∧
+    (∀ q ∈ packCounters scopes, q.2 = q.1.cref ∧ innerScope q.1 q.2 = q.1) ∧
+    (∀ q ∈ packCounters scopes, ∀ (cfg : Cfg) (p : Prog) (st : Store),
+      runProg cfg p (innerScope q.1 q.2) st = runProg cfg p q.1 st) := by
+  have h2 : ∀ q ∈ packCounters scopes, q.2 = q.1.cref ∧ innerScope q.1 q.2 = q.1 := by
+    intro q hq
+    simp only [packCounters, List.mem_map] at hq
+    obtain ⟨s, _, rfl⟩ := hq
+    exact ⟨rfl, rfl⟩
+  refine ⟨by simp [packCounters, List.map_map, Function.comp_def], h2, ?_⟩
+  intro q hq cfg p st
+  rw [(h2 q hq).2]
+
+/-- **Counter-example for collecting the counters before deduplication** (not the shipped code): a transformed module (path `[]`) owning
+an attribute sub-module `inner`; the scopes arrive as `[inner, outer]`, `_dedup_scopes` keeps `[outer]`, and zipping it with the
+counters of the *original* list hands `outer` the dict of `inner`.  After one draw outside the lift (count 1 in `outer`'s own dict) the
+draw inside the lift starts again from the untouched dict of `inner`: the same (path, count), the same key. -/
+theorem pack_counters_before_dedup_replays :
+    let cfg : Cfg := { sep := true, fallback := "params" }
+    let seeds : List (String × SymKey) := [("dropout", .seed 0)]
+    let outer := (bindRoot seeds).1
+    let r := push outer "inner" (bindRoot seeds).2
+    let inner := r.1
+    -- shipped: outer keeps its own dict; the variant hands it the child's
+    packCounters [inner, outer] = [(outer, ((0 : Nat), []))] ∧
+    packCountersBeforeDedup [inner, outer] = [(outer, ((0 : Nat), ["inner"]))] ∧
+    -- one draw outside the lift, then one inside it
+    (∃ k st1, makeRng cfg outer "dropout" r.2 = .ok (k, st1) ∧
+      (makeRng cfg (innerScope outer ((0 : Nat), ["inner"])) "dropout" st1).map (·.1) = .ok k ∧
+      (makeRng cfg (innerScope outer ((0 : Nat), [])) "dropout" st1).map (·.1) = .ok (keyAt true (.seed 0) [] 2)) := by
+  refine ⟨by decide, by decide, ⟨_, _, rfl, rfl, rfl⟩⟩
+
 /-- **`nn.jit` counters (repaired `lift.jit`, finding F11).**  With one delta cache per transformed function, every call
 of every jit-ted function, in every process history (any interleaving of functions, fingerprints and counter values, traced
 or served from jax's cache), leaves the counter exactly where running the body would: `c + d fn`. -/
@@ -819,6 +857,10 @@ example : selectedBy (some ["params"]) "default" = false ∧ selectedBy (some ["
 /-- `linen_key_count_is_rank_with_jit`: the request list of a program with a jit-ted call (two streams ⇒ two fork requests) -/
 example : reqsN cfg1 ["params", "dropout"] (.sub "A" (.jit (.draw "x" .done) (.draw "dropout" .done)) .done) [] =
     [(["A"], "params", false), (["A"], "dropout", false), (["A"], "params", true), (["A"], "dropout", true)] := by decide
+/-- `pack_gives_each_kept_scope_its_own_counters`: a non-trivial scope list (a duplicate, and a descendant before its ancestor) -/
+example : let outer := (bindRoot seeds0).1
+    let inner := (push outer "inner" (bindRoot seeds0).2).1
+    (dedupScopes [inner, outer, inner, outer]).length = 1 ∧ (packCounters [inner, outer, inner, outer]).length = 1 := by decide
 /-- `jit_call_simulated_by_heap_replay`: the initial states (`bind` root / the heap with one root dict) satisfy the hypotheses -/
 example : Rep seeds0 (bindRoot seeds0).2 (fun _ _ => 0) ∧ HeapRep CHeap.init (fun _ _ => 0) ∧ Canon CHeap.init ∧
     (find? (((0 : Nat), []) : CRef) CHeap.init.cells).isSome ∧ (find? (((0 : Nat), []) : CRef) (bindRoot seeds0).2.dicts).isSome := by
